@@ -166,6 +166,15 @@ known("KF24-dt-keyerror-for-eliminated-decision", ["C21"],
       "dtproblog raises KeyError (LogicFormula.get_node_by_name) when a decision atom occurs only in a contradictory conjunction (d, \\+d) so that its node is eliminated from the compiled formula",
       "0.1::f. a :- d1, \\+d1. b :- \\+f, d2. ?::d1. ?::d2. utility(a, -1). utility(d2, 2).",
       match={"clause": "crash", "error": "KeyError", "site": "formula.py:get_node_by_name"})
+known("KF25-bn-export-crashes", ["C31", "C25"],
+      "the bn task crashes on ordinary programs: KeyError in LogicFormula.extract_ads when avoid_name_clash=False collapses a single-child disjunction and the AD head names are lost; AttributeError in clause_to_cpt when a clause head carries no probability object",
+      "0.2::c; 0.5::d. query(c). query(d).  (problog bn -> KeyError);  0.8::f. d(c1). q :- d(X), \\+f. query(q).  (AttributeError)",
+      match_any=[{"clause": "crash", "error": "KeyError", "site": "formula.py:extract_ads"},
+                 {"clause": "crash", "error": "AttributeError", "site": "bayesnet.py:clause_to_cpt"}])
+known("KF26-bn-export-drops-or-misroutes-variables", ["C31"],
+      "the exported network can lack the variable of a queried probabilistic fact that is also used in a rule body with other variables, and can contain a directed cycle between a head variable and its choice variable when two annotated disjunctions share head atoms",
+      "0.1::h(c2). d(c1). d(c2). s :- d(X), h(Y). query(h(c2)). query(s).  (network has only c0 and s);  0.2::e; 0.2::d; 0.2::c; 0.2::a. 0.3::e; 0.3::a. q :- a, d. query(q).  (cycle a <-> c0)",
+      match_any=[{"clause": "query-variable-missing"}, {"clause": "network-cyclic"}, {"clause": "network-not-well-formed"}])
 fixed("FX1-break-cycles-true-child", ["C01", "C09"], "29bdee9",
       "AssertionError in LogicFormula.get_node(0) from _break_cycles when a disjunction below an evidence node contains the TRUE node",
       "0.1::h(c1). d(c1). d(c2). p(X) :- d(X), r(c1). p(Y) :- d(Y). r(X) :- p(X). r(Y) :- d(Y), h(X). query(p(c1)). evidence(r(c1)).")
